@@ -53,9 +53,9 @@ func perr(name, format string, a ...any) *PSError {
 const (
 	MaxOperandStack = 500
 	MaxDictStack    = 20
-	MaxArray        = 65536
-	MaxString       = 65536
-	MaxDict         = 65536
+	MaxArray        = 65535
+	MaxString       = 65535
+	MaxDict         = 65535
 )
 
 type frameKind uint8
@@ -508,6 +508,12 @@ func sizedAlloc(name string, limit int64, mk func(n int) Obj) func(m *Machine) *
 			return perr("rangecheck", "%s", name)
 		}
 		if n.I > limit {
+			// The PLRM's architectural limit is 65535; what an
+			// implementation does with larger requests it could still
+			// satisfy is its own choice (success or limitcheck).
+			if n.I < 1<<31 {
+				m.Ambiguous = name + ": size between the architectural limit and 2^31"
+			}
 			return perr("limitcheck", "%s", name)
 		}
 		m.popN(1)
@@ -1006,6 +1012,11 @@ func init() {
 			var v viol
 			v.add(a.K != KDict, "typecheck")
 			v.add(len(m.DS) >= MaxDictStack, "dictstackoverflow")
+			if len(m.DS) >= MaxDictStack {
+				// 20 is the PLRM's typical limit; a larger finite limit
+				// is as good (that there is one is checked by C11)
+				m.Ambiguous = "begin: dictionary stack at the typical limit"
+			}
 			if e := v.result(m, "begin"); e != nil {
 				return e
 			}
